@@ -10,7 +10,15 @@ and calls cells of the other space through a path (`Ch.c<i>`, `_space.parent.c<i
 the error classes formulas may catch and the execution logger `zlog` (a harness function called first in every
 formula – the ghost `log`).
 Edit ops (besides the value edits): `setref r v` (`space.r = v`: change or create), `delref r` (`del space.r`),
-`setformula c <sexp>` (`cells.formula = …`), `setcached c 0|1` (`cells.is_cached = …`).
+`setformula c <sexp>` (`cells.formula = …`), `setcached c 0|1` (`cells.is_cached = …`),
+`delcell c` (`del space.c<i>`), `newcell c <cached> <allow_none> <nparams> <sexp>` (`space.new_cells(...)` in the space
+the id belongs to – fixed for the whole history, so that the spelling of a call, `c<i>` / `Ch.c<i>` /
+`_space.parent.c<i>`, does not depend on when a formula was written).  A cells description with `"absent": True` is
+declared (it has a space, formulas may call it) but not created at the start.  Operations through the handle of a
+cells that does not exist (deleted) are made on the stale handle (`DeletedObjectError`); for an id that never
+existed there is no handle and the harness answers `err Deleted` itself.  Values and graph nodes are attributed to
+cells ids through the implementation objects, including those of deleted cells (an orphaned implementation object
+that still held a value, or a graph node of it, would show up under the id).
 Limit and administrative ops: `maxdepth n` (`mx.set_recursion(n)`), `admin start|stop|get|clear|tracestack`
 (`mx.start_stacktrace()` … `with mx.trace_stack(): pass`), `admin getrecursion|geterror|gettraceback|setsame`
 (`mx.get_recursion()`, `mx.get_error()`, `mx.get_traceback()`, `mx.set_recursion(mx.get_recursion())`); the
@@ -98,10 +106,14 @@ class ExecImpl:
             names = {"cell": self._cell_name, "rn": lambda r: "r%d" % r, "ra": self._attr_path}
             self.rend = Renderer(names, "zlog" if log else None, "zc" if recorder is not None else None)
             self.cells = {}
+            self.impls = {}         # cid -> every implementation object the id ever had (deleted ones included)
+            self.ifaces = {}        # cid -> every interface object (handle) the id ever had
             self.linemaps = {}
             self.sources = {}
+            self.cells_def = [dict(c) for c in cells]
             for c in cells:
-                self.define(c)
+                if not c.get("absent"):
+                    self.define(c)
         mx.set_recursion(maxdepth if maxdepth else 100000)
         self.ex = mx.core.mxsys.executor
 
@@ -155,6 +167,12 @@ class ExecImpl:
         cells = self.space_obj(int(c.get("space", 0))).new_cells("c%d" % c["id"], formula=src, is_cached=c["cached"])
         cells.allow_none = c["allow_none"]
         self.cells[c["id"]] = cells
+        self.impls.setdefault(c["id"], []).append(cells._impl)
+        self.ifaces.setdefault(c["id"], []).append(cells)
+
+    def exists(self, cid):
+        c = self.cells.get(cid)
+        return c is not None and c._is_valid()
 
     def close(self):
         self._stop_trace()
@@ -168,10 +186,17 @@ class ExecImpl:
 
     # ---- ids
     def cid_of(self, impl):
-        for cid, c in self.cells.items():
-            if c._impl is impl:
+        for cid, impls in self.impls.items():
+            if any(i is impl for i in impls):
                 return cid
         return "?%s" % getattr(impl, "name", impl)
+
+    def cid_of_obj(self, obj):
+        """the id of a cells interface (a traceback kept from an earlier failure may name a cells deleted since)"""
+        for cid, objs in self.ifaces.items():
+            if any(o is obj for o in objs):
+                return cid
+        return self.cid_of(obj._impl)
 
     def gnode_s(self, n):
         if len(n) == 1:
@@ -183,6 +208,9 @@ class ExecImpl:
         kind = op[0]
         try:
             with quiet():
+                if kind in ("eval", "set", "clearat", "clear", "clearall", "setformula", "setcached") \
+                        and int(op[1]) in self.cell_space and int(op[1]) not in self.cells:
+                    return "err Deleted"        # the id never had a cells: no handle to go through
                 if kind == "eval":
                     c = self.cells[int(op[1])]
                     args = [parse_val(a) for a in op[2:]]
@@ -190,7 +218,7 @@ class ExecImpl:
                         v = c(*args)
                     except FormulaError:
                         e = mx.get_error()
-                        tb = ",".join(node_s(self.cid_of(n.obj._impl), n.args) for n, _ in mx.get_traceback())
+                        tb = ",".join(node_s(self.cid_of_obj(n.obj), n.args) for n, _ in mx.get_traceback())
                         return "err Formula %s tb=%s" % (err_kind(e), tb)
                     return "ok " + val_s(v)
                 if kind == "set":
@@ -198,10 +226,11 @@ class ExecImpl:
                     eq = op.index("=")
                     args = tuple(parse_val(a) for a in op[2:eq])
                     v = parse_val(op[eq + 1])
-                    try:
-                        c._impl.formula.signature.bind(*args)
-                    except TypeError:
-                        return "err Type"
+                    if c._is_valid():
+                        try:
+                            c._impl.formula.signature.bind(*args)
+                        except TypeError:
+                            return "err Type"
                     c[args] = v
                     return "ok"
                 if kind == "clearat":
@@ -226,9 +255,27 @@ class ExecImpl:
                     cid = int(op[1])
                     c = next(x for x in self.cells_def if x["id"] == cid)
                     src, lm = self.rend.render("c%d" % cid, cid, c["nparams"], parse_sexp(" ".join(op[2:])))
+                    self.cells[cid].formula = src
                     self.sources[cid] = src
                     self.linemaps[cid] = lm
-                    self.cells[cid].formula = src
+                    return "ok"
+                if kind == "delcell":
+                    cid = int(op[1])
+                    delattr(self.space_obj(self.cell_space[cid]), "c%d" % cid)
+                    return "ok"
+                if kind == "newcell":
+                    cid = int(op[1])
+                    old = next(x for x in self.cells_def if x["id"] == cid)
+                    c = dict(old, cached=op[2] == "1", allow_none=None if op[3] == "n" else op[3] == "1",
+                             nparams=int(op[4]), body=parse_sexp(" ".join(op[5:])))
+                    c.pop("absent", None)
+                    c.pop("lam", None)
+                    if self.exists(cid):
+                        # the name is taken: `new_cells` refuses
+                        self.space_obj(self.cell_space[cid]).new_cells("c%d" % cid, formula="lambda: 0")
+                        return "bad-op"
+                    self.define(c)
+                    self.cells_def = [c if x["id"] == cid else x for x in self.cells_def]
                     return "ok"
                 if kind == "setcached":
                     self.cells[int(op[1])].is_cached = (op[2] == "1")
@@ -278,9 +325,10 @@ class ExecImpl:
             return "maxdepth %d" % mx.get_recursion()
         if what == "values":
             items = []
-            for cid, c in self.cells.items():
-                for k, v in c._impl.data.items():
-                    items.append("%s=%s%s" % (node_s(cid, k), val_s(v), "I" if k in c._impl.input_keys else "C"))
+            for cid, impls in self.impls.items():
+                for impl in impls:
+                    for k, v in impl.data.items():
+                        items.append("%s=%s%s" % (node_s(cid, k), val_s(v), "I" if k in impl.input_keys else "C"))
             return "values " + " ".join(sorted(items))
         if what == "graph":
             g = self.m._impl.tracegraph
@@ -301,7 +349,7 @@ class ExecImpl:
             es = self.ex.errorstack
             e = getattr(self.ex, "excinfo", None)
             kind = err_kind(e[1]) if e else "-"
-            nodes = [node_s(self.cid_of(n.obj._impl), n.args) for n, _ in mx.get_traceback()] if es else []
+            nodes = [node_s(self.cid_of_obj(n.obj), n.args) for n, _ in mx.get_traceback()] if es else []
             return "tb %s %s" % (kind, " ".join(nodes))
         if what == "quiescent":
             return "q stack=%d idx=%d refstack=%d" % (
@@ -321,7 +369,8 @@ def model_prelude(cells, refs, maxdepth):
     for r, v in refs.items():
         lines.append("ref %d %s" % (r, val_s(v)))
     for c in cells:
-        lines.append(cell_line(c))
+        if not c.get("absent"):
+            lines.append(cell_line(c))
     return lines
 
 
